@@ -144,7 +144,7 @@ def evalPktCmd (args : List String) : String :=
     | _, _, _ => "bad-op"
   | ["RetrieveSupportedCipherSuites", n] =>
     match n.toNat? with
-    | some n => showList ((List.range (n + 1)).map fun i =>
+    | some n => showList ((List.range (min (n + 1) 64)).map fun i =>   -- list indices are 6 bits wide: 0 … 63
         packetSessionless Cmd.cipherSuites.operation (Cmd.cipherSuites.lun 0)
           (CipherSuites.encode { channel := u8 Gen.Facts.ipmi_ChannelPresentInterface, payloadType := 0, listIndex := u8 i }))
     | none => "bad-op"
